@@ -13,3 +13,9 @@ pub(super) use {
 };
 
 pub use {machine::BmpState, metrics::BmpStateMachineMetrics};
+
+#[cfg(feature = "verif-hooks")]
+pub use {
+    machine::{BmpStateIdx, PeerState},
+    metrics::RouterBmpMetrics,
+};
